@@ -29,7 +29,7 @@ LEVEL_NOTE = ('holds for the enumerated data sets only (float64, grow=0, no maxr
 RULE = ('case = one iterfit call: (data set, order, knot option, non-positive-weight set, outlier placement+magnitudes, weight pattern, upper, lower, maxiter, input permutation). '
         'Non-trivial: part P when the reference loop rejects at least one point or a weight is non-positive; part O when the permutation is not the identity; parts W and G (coverage hole) always. '
         'Distinct = distinct case tuples.')
-ASSUMPTIONS = ['a threshold keyword that is not passed acts as the documented default 5 (calls with only upper, only lower, or neither are enumerated)',
+ASSUMPTIONS = ['coverage-hole layer: when every failed fit precedes the successful ones the returned mask must be a member of the documented reject/refit chain on the surviving breakpoints; too-few-good-points layer in 11 input orders (sorted, reversed, 6 rotations, interleave, 2 shuffles)', 'a threshold keyword that is not passed acts as the documented default 5 (calls with only upper, only lower, or neither are enumerated)',
                'documented breakpoint construction is checked where the docstring pins it down: nbkpts = that many equally spaced breakpoints over the good-point range (minimum 2); bkspace = breakpoints exactly bkspace apart when the range is a whole multiple of it (otherwise floor or ceil(range/bkspace) equal intervals are both accepted)',
                'tied abscissae are included (one 12-point set): the curve is still unique and the mask is compared per point identity; at least one positive inverse variance (otherwise iterfit raises ValueError by design)',
                'coverage hole (part G): decidable clauses only - mask False at invvar<=0, permutation invariance, curve == dense weighted LSQ on the surviving breakpoints (sset.mask) for the returned mask or a predecessor mask whose rejection pass yields it; runs that stop at the iteration limit right after a failed fit (status codes observed through a pass-through wrapper of bspline.fit) and runs whose surviving-knot problem is rank deficient are skipped and counted',
